@@ -207,7 +207,15 @@ Definition serve (svc : service) (h : str -> str) (tps : Z) (max_age : option Z)
 
 (* ---- cache + tile manager: histories -------------------------------------------------------------------- *)
 (* what a backend with timestamps reports for a stored tile: file: st_mtime, st_size, file bytes;
-   sqlite: last_modified (whole seconds), len(tile_data), tile_data *)
+   sqlite: last_modified (whole seconds), len(tile_data), tile_data.
+   File cache with link_single_color_images: the tile is a link to single_color_tiles/<rgb>.png and
+   FileCache.load_tile_metadata uses os.lstat, i.e. the metadata of the directory entry of the TILE:
+     symlink:  e_ts = mtime of the link itself (set when the tile is linked, so every rewrite of the tile advances
+               it), e_size = length of the link text, e_body = bytes of the shared colour file (read through the link);
+     hardlink: the tile shares the inode of the colour file: e_ts = mtime of the colour file (written once, when the
+               colour was first seen), e_size = its size.
+   `Rewrite k e` below is "the directory entry of tile k now reports e" - for a linked tile that is the lstat of the
+   new link, whatever the age of the file it points to.  The theorems are about these reported values. *)
 Record entry := { e_ts : stamp; e_size : Z; e_body : Z }.
 Definition store := list (Z * entry).
 
@@ -225,9 +233,13 @@ Definition update (st : store) (k : Z) (e : entry) : store := (k, e) :: remove s
 
 (* behaviour of the source if this request has to ask it *)
 Inductive upstream :=
-| UOk (body size : Z) (now stored : stamp)
-      (* an image; tile_buffer stamps the tile with time.time() = now and its encoded size;
-         later loads will report `stored` (mtime given by the file system / second kept by sqlite) *)
+| UOk (body : Z) (buffered : option (stamp * Z)) (stored : entry)
+      (* an image.  buffered = Some (now, size): the backend wrote the bytes through tile_buffer, which stamps the tile
+         with time.time() = now and its encoded size.  buffered = None: file cache with link_single_color_images and
+         the shared single-colour file already exists - the tile is only linked, tile_buffer does not run and the
+         tile keeps timestamp None / size None (the body of this answer is the freshly encoded image, the bytes of
+         the shared file may differ).  Later loads will report `stored`: mtime given by the file system / second
+         kept by sqlite, size and bytes of what was written; for a linked tile see `entry` above. *)
 | UFill (body : Z)      (* error handler answered with a fill image, `cache: false` *)
 | UErr.                 (* SourceError without handler: error page, no cache headers involved *)
 
@@ -240,9 +252,9 @@ Definition load (st : store) (k : Z) (up : upstream) : store * option (tinfo * Z
   | Some e => (st, Some (info_of_entry e, e_body e))
   | None =>
     match up with
-    | UOk body size now stored =>
-      (update st k {| e_ts := stored; e_size := size; e_body := body |},
-       Some ({| ti_cacheable := true; ti_ts := Some now; ti_size := Some size |}, body))
+    | UOk body buffered stored =>
+      (update st k stored,
+       Some ({| ti_cacheable := true; ti_ts := option_map fst buffered; ti_size := option_map snd buffered |}, body))
     | UFill body => (st, Some ({| ti_cacheable := false; ti_ts := None; ti_size := None |}, body))
     | UErr => (st, None)
     end
